@@ -36,6 +36,27 @@ PLAN = {
 }
 
 MANIFEST_TEXT = {
+    "C07": {
+        "text": "Verdict algebra proved function by function on the real source: every fitness() override (expression, "
+                "comparison, conjunction, disjunction, implication, forall, exists) returns a result whose `success` equals "
+                "the documented semantics stated over ghost per-combination / per-child verdicts (a raising combination "
+                "fails; lazy = eager; no match = success), keeps the representation invariant 0<=solved<=total, total>=1, "
+                "success<=>solved==total, and does not write the caller's scope/locals dicts. Selector classes and the "
+                "text->search translation are not yet under contract (assumed contracts on combinations/quantify).",
+        "note": "pyvc encoding trusted; GeneticBase.combinations, NonTerminalSearch.quantify, Container.evaluate/get_trees, "
+                "Constraint.eval (user Python) and Comparison.compare are assumed contracts; RepetitionBoundsConstraint.fitness "
+                "is not verified against the abstract contract.",
+        "technique": "contract-based deductive verification: own VC generator over the real source, loop invariants, induction lemmas, z3+cvc5",
+    },
+    "C11": {
+        "text": "Memo soundness decomposed into proved obligations: key completeness (get_hash covers root, tree, scope "
+                "content, locals content), every value stored in self.cache carries the verdict of its key and the "
+                "representation invariant (memo invariant, per override), no fitness() writes the caller's dicts (read "
+                "frame), and Evaluator.evaluate_individual returns the stored tuple on a hit without yielding.",
+        "note": "That equal keys imply equal arguments (no 64-bit hash collision) is an explicit assumption "
+                "`hash_key_faithful`; tree-hash staleness is the subject of C10; determinism of user Python assumed.",
+        "technique": "contract-based deductive verification: own VC generator over the real source, z3+cvc5",
+    },
     "C02": {
         "text": "Every VC generated from the current source of ConstraintFitness.fitness, Evaluator._evaluate_constraints and "
                 "Evaluator.evaluate_individual is discharged: a tree is yielded only if every hard constraint and every "
